@@ -695,6 +695,7 @@ func ruleOptionDefaulting(c *Ctx, rule string) {
 				// not a mode
 				if ph, ok := ifi.Cond.(*ssa.Phi); ok {
 					inputOnly := true
+					sawCall := false
 					seenL := map[ssa.Value]bool{}
 					var leaves func(v ssa.Value)
 					leaves = func(v ssa.Value) {
@@ -711,11 +712,14 @@ func ruleOptionDefaulting(c *Ctx, rule string) {
 						default:
 							if cl, _ := callOf(v); cl == nil || !isDecoderMethodCall(cl) {
 								inputOnly = false
+							} else {
+								sawCall = true
 							}
 						}
 					}
 					leaves(ph)
-					if inputOnly {
+					// (a merge of constants alone is a mode flag, e.g. `extended`)
+					if inputOnly && sawCall {
 						continue
 					}
 				}
